@@ -142,6 +142,7 @@ HllArray<A>* HllArray<A>::newHll(const void* bytes, size_t len, const A& allocat
     const uint8_t* auxDataStart = data + offset;
     auxHashMap = AuxHashMap<A>::deserialize(auxDataStart, len - offset, lgK, auxCount, auxLgIntArrSize, comapctFlag, allocator);
     aux_ptr = aux_hash_map_ptr(auxHashMap, auxHashMap->make_deleter());
+    checkAuxEntries(lgK, data + hll_constants::HLL_BYTE_ARR_START, *auxHashMap);
   }
 
   HllArray<A>* sketch = HllSketchImplFactory<A>::newHll(lgK, tgtHllType, startFullSizeFlag, allocator);
@@ -218,7 +219,8 @@ HllArray<A>* HllArray<A>::newHll(std::istream& is, const A& allocator) {
   if (auxCount > 0) { // necessarily TgtHllType == HLL_4
     uint8_t auxLgIntArrSize = listHeader[4];
     AuxHashMap<A>* auxHashMap = AuxHashMap<A>::deserialize(is, lgK, auxCount, auxLgIntArrSize, comapctFlag, allocator);
-    ((Hll4Array<A>*)sketch)->putAuxHashMap(auxHashMap);
+    ((Hll4Array<A>*)sketch)->putAuxHashMap(auxHashMap); // owned by the sketch from here on
+    checkAuxEntries(lgK, sketch->hllByteArr_.data(), *auxHashMap);
   } else if (tgtHllType == HLL_4 && !comapctFlag) {
     // an updatable HLL_4 image always carries the (empty) aux area: consume it so that the stream is left at the image end
     is.ignore(static_cast<std::streamsize>(4) << hll_constants::LG_AUX_ARR_INTS[lgK]);
@@ -248,6 +250,18 @@ void HllArray<A>::checkCounts(target_hll_type tgtHllType, uint8_t lgK, uint32_t 
   if (auxCount != numTokens) {
     throw std::invalid_argument("Possible corruption: aux count " + std::to_string(auxCount)
         + " does not match the number of exception slots " + std::to_string(numTokens));
+  }
+}
+
+// every exception slot of the register array must have its value in the aux map (the counts alone can agree while the
+// entries belong to other slots, e.g. an updatable image whose compact flag was flipped)
+template<typename A>
+void HllArray<A>::checkAuxEntries(uint8_t lgK, const uint8_t* hllBytes, const AuxHashMap<A>& auxHashMap) {
+  const uint32_t configK = 1 << lgK;
+  for (uint32_t slot = 0; slot < configK; ++slot) {
+    const uint8_t byte = hllBytes[slot >> 1];
+    const uint8_t nibble = (slot & 1) ? (byte >> 4) : (byte & hll_constants::loNibbleMask);
+    if (nibble == hll_constants::AUX_TOKEN) auxHashMap.mustFindValueFor(slot); // throws if absent
   }
 }
 
